@@ -965,6 +965,9 @@ func (d *driver) prepare(st *Step) (*checkRun, *envoy.CheckRequest) {
 		ev["url"] = fmt.Sprintf("u%d", idx)
 	}
 	envl := d.env.spec.Env
+	if st.Env != "" {
+		envl = strings.TrimPrefix(st.Env, "plain")
+	}
 	scheme, host := envelopeAuthority(envl, kind)
 	if kind != "app" {
 		// the URL of this request, should the service later send the browser back to it
